@@ -22,8 +22,12 @@ def fnmod_case(cid, rng, no_send):
     opts = ["?Send"] if no_send else []
     if rng.random() < 0.3:
         opts.append(rng.choice(["export", "mockall = false", "unimock = false"]))
+    macro = rng.choice(["entrait", "entrait_export"])
+    if macro == "entrait" and "export" not in opts and rng.random() < 0.35:
+        # a mock derivation that is gated by cfg(test) (inert in this build) must not change the declared futures
+        opts.append(rng.choice(["mockall", "mockall = true", "mock_api = SubjMock, unimock = true"]))
     rng.shuffle(opts)
-    b = FnCaseBuilder(cid, rng, profile=FN_PROFILE, options=opts, macro=rng.choice(["entrait", "entrait_export"]))
+    b = FnCaseBuilder(cid, rng, profile=FN_PROFILE, options=opts, macro=macro)
     b.build()
     for f in b.fns:
         f.is_async = True
